@@ -186,6 +186,12 @@ def gen_password(rng):
     if x > 0.88:
         # short passwords whose text also occurs inside public data (paths, addresses, keys): a filter or a
         # "redaction" that works on substrings must not touch those
+        if rng.random() < 0.35:
+            # ... or that is spelled EXACTLY like a whole public string of the output (paths do not depend on the
+            # secret, so they can be named in advance): an equality-based scrub must not touch those either
+            return rng.choice(["m/44'/0'/0'", "m/49'/0'/0'", "m/84'/0'/0'", "m/44'/1'/0'", "m/49'/1'/0'", "m/84'/1'/0'",
+                               "m/44'/0'/0'/0/0", "m/49'/0'/0'/0/0", "m/84'/0'/0'/0/0", "m/84'/1'/0'/0/0",
+                               "m/44'/0'/0'/0/1", "m/84'/0'/0'/0/1", "m/44'/0'/1'", "m/84'/0'/1'"])
         return rng.choice(["1", "0", "a", "02", "03", "bc1q", "tb1q", "m/", "44'", "xpub", "'", "/0/", "e", "pub"])
     if x < 0.15:
         return core_ + rng.choice([" ", "  ", "\t", "\n"])
@@ -1237,6 +1243,10 @@ class CliSim(Simulator):
                     yield p
 
     # ----------------------------------------------------------------------- reporting
+    def secondary_backends(self, prop, tier):
+        # interpreter configuration: the same simulator under `python -O` (assert statements stripped)
+        return [("ecdsa-O", 160, None)] if tier == "quick" else [("ecdsa-O", None, 60)]
+
     def quick_runs(self, prop):
         return int(os.environ.get("VERIF_%s_RUNS" % prop, "1600" if prop == "C20" else "1000"))
 
